@@ -136,6 +136,78 @@ def _outcome(res, timeout):
         return ['exc', n, repr(a)[:200]]
 
 
+def blocked_sample(pid, inodes):
+    """(queue name, cpu ticks) when process `pid` sleeps in read(2) on one of
+    the pipes in `inodes` {inode: name}, else None (x86_64 /proc/<pid>/syscall)"""
+    try:
+        with open('/proc/%d/syscall' % pid) as f:
+            sc = f.read().split()
+        with open('/proc/%d/stat' % pid) as f:
+            st = f.read()
+        rest = st[st.rindex(')') + 2:].split()
+        if rest[0] != 'S' or not sc or sc[0] != '0':
+            return None
+        fd = int(sc[1], 16)
+        link = os.readlink('/proc/%d/fd/%d' % (pid, fd))
+        if not link.startswith('pipe:['):
+            return None
+        name = inodes.get(int(link[6:-1]))
+        if name is None:
+            return None
+        return (name, int(rest[11]) + int(rest[12]))
+    except (OSError, ValueError, IndexError):
+        return None
+
+
+def _pool_stuck_sample(P):
+    """a hashable picture of the pool when every worker sleeps in read() on
+    the in-queue or its syn-queue, at least one of them on its syn-queue, and
+    the result pipe is empty; else None"""
+    try:
+        if P._outqueue._reader.poll(0):
+            return None
+        pic = []
+        ino_in = os.fstat(P._inqueue._reader.fileno()).st_ino
+        for w in list(P._pool):
+            synq = getattr(w, '_c03_synq', None)
+            inodes = {ino_in: 'inq'}
+            if synq is not None:
+                inodes[os.fstat(synq._reader.fileno()).st_ino] = 'synq'
+            b = blocked_sample(w.pid, inodes)
+            if b is None:
+                return None
+            pic.append((w.pid,) + b)
+        if not any(x[1] == 'synq' for x in pic):
+            return None
+        return tuple(pic)
+    except (OSError, ValueError, AttributeError):
+        return None
+
+
+def _await(P, cond, timeout, obs, what):
+    """wait for cond(); -> 'ok' | 'deadlock' | 'timeout'.  'deadlock' is a
+    state verdict: two identical stuck pictures 3 s apart"""
+    deadline = time.monotonic() + timeout
+    last = None
+    t_chk = 0.0
+    while time.monotonic() < deadline:
+        if cond():
+            return 'ok'
+        time.sleep(0.01)
+        now = time.monotonic()
+        if now - t_chk >= 0.5:
+            t_chk = now
+            pic = _pool_stuck_sample(P)
+            if pic is None:
+                last = None
+            elif last is None or last[0] != pic:
+                last = (pic, now)
+            elif now - last[1] >= 3.0 and not cond():
+                obs['deadlock'] = {'waiting_for': what, 'workers': [list(x) for x in pic]}
+                return 'deadlock'
+    return 'ok' if cond() else 'timeout'
+
+
 def _mk_cb(cbs, handles, tag, which):
     def cb(*a):
         ent = {'t': time.monotonic(), 'tag': tag, 'which': which,
@@ -269,10 +341,15 @@ def sc_synack(params, obs, save):
         d = {'tag': tag, 'kind': 'gate', 'gate': gate, 'maxwait': 40.0}
         blockers.append(_submit(P, handles, sub, cbs, tag, d, None))
         sub[tag]['cancel'] = None
-    t_end = time.monotonic() + 30
-    while time.monotonic() < t_end and not all(h.accepted() for h in blockers):
-        time.sleep(0.005)
-    obs['blockers_accepted'] = all(h.accepted() for h in blockers)
+    obs['blockers'] = _await(P, lambda: all(h.accepted() for h in blockers), 30, obs,
+                             'acceptance of the first jobs')
+    obs['blockers_accepted'] = obs['blockers'] == 'ok'
+    if not obs['blockers_accepted']:
+        _final(handles, sub)
+        obs.update(sub=sub, cbs=cbs, outcomes={}, aborted=True)
+        save()
+        P.terminate()
+        return
     # 2. queue the jobs; cancel the seeded subset *before* any worker is free
     for j in params['jobs']:
         _submit(P, handles, sub, cbs, j['tag'], dict(j['desc']), None)
@@ -297,18 +374,16 @@ def sc_synack(params, obs, save):
                 sub[j['tag']]['t_cancel'] = time.monotonic()
                 late.remove(j)
         time.sleep(0.002)
-    # 4. wait for everything that must resolve
-    outs = {}
-    deadline = time.monotonic() + 45
-    for tag in handles:
-        if sub[tag].get('cancel') != 'before':
-            outs[tag] = _outcome(handles[tag], max(0.5, deadline - time.monotonic()))
-    # the refused jobs: wait until each was answered, then give a result
-    # every chance to show up
+    # 4. wait for everything that must resolve, and for the refused jobs to
+    # have been answered; then give a late result every chance to show up
+    must = [t for t in handles if sub[t].get('cancel') != 'before']
     refused = [t for t in handles if sub[t].get('cancel') == 'before']
-    t_end = time.monotonic() + 15
-    while time.monotonic() < t_end and not all(handles[t].accepted() for t in refused):
-        time.sleep(0.01)
+    obs['wait_results'] = _await(
+        P, lambda: all(handles[t].ready() for t in must) and
+        all(handles[t].accepted() for t in refused), 45, obs, 'results')
+    outs = {}
+    for tag in must:
+        outs[tag] = _outcome(handles[tag], 0.01)
     time.sleep(params.get('linger', 0.5))
     _final(handles, sub)
     obs['outcomes'] = outs
@@ -316,6 +391,11 @@ def sc_synack(params, obs, save):
     obs['cbs'] = cbs
     obs['cache_left'] = sorted(P._cache.keys())
     save()
+    if obs['wait_results'] != 'ok':
+        obs['aborted'] = True
+        save()
+        P.terminate()
+        return
     for t in refused:
         handles[t].discard()
     P.close()
